@@ -369,6 +369,10 @@ func parseLinkDestination(block text.Reader) ([]byte, bool) {
 		}
 		i++
 	}
+	if opened > 0 {
+		// parentheses are part of a destination only as balanced pairs
+		return nil, false
+	}
 	block.Advance(i)
 	return line[:i], len(line[:i]) != 0
 }
